@@ -5945,6 +5945,10 @@ func (t *CompositeType) SupportedEntitlements() *EntitlementSet {
 		computedSet.Merge(entitlementSupportingBase.SupportedEntitlements())
 	}
 
+	// Minimize the set before publishing it:
+	// the cached set is shared (potentially by concurrent checkers and interpreters),
+	// and e.g. Access and IsMinimallyRepresentable would otherwise lazily minimize, i.e. mutate, it.
+	computedSet.Minimize()
 	t.supportedEntitlements.Store(computedSet)
 	return computedSet
 }
@@ -6763,6 +6767,10 @@ func (t *InterfaceType) SupportedEntitlements() *EntitlementSet {
 
 	// Compute set and cache it
 	computedSet := t.computeSupportedEntitlements(map[*InterfaceType]struct{}{})
+	// Minimize the set before publishing it:
+	// the cached set is shared (potentially by concurrent checkers and interpreters),
+	// and e.g. Access and IsMinimallyRepresentable would otherwise lazily minimize, i.e. mutate, it.
+	computedSet.Minimize()
 	t.supportedEntitlements.Store(computedSet)
 	return computedSet
 }
@@ -9783,6 +9791,10 @@ func (t *IntersectionType) SupportedEntitlements() *EntitlementSet {
 		ForEach(func(interfaceType *InterfaceType) {
 			computedSet.Merge(interfaceType.SupportedEntitlements())
 		})
+	// Minimize the set before publishing it:
+	// the cached set is shared (potentially by concurrent checkers and interpreters),
+	// and e.g. Access and IsMinimallyRepresentable would otherwise lazily minimize, i.e. mutate, it.
+	computedSet.Minimize()
 	t.supportedEntitlements.Store(computedSet)
 	return computedSet
 }
